@@ -637,8 +637,21 @@ func C19(c *core.Ctx) {
 						// one XMLWtr serving document after document, retargeted to a fresh buffer each time
 						buff := new(bytes.Buffer)
 						c19wtr.Out = buff
+						var viaXML string
+						if di%2 == 1 {
+							// the convenience method in between: it answers with the document and leaves the writer's own
+							// stream alone
+							st2 := refstore.NewBody(nil, sc.kids, gen.Clone(tree), "")
+							st2.ListSep = "\x1e"
+							if viaXML, e = c19wtr.XML(node.NewBrowser(m, st2).Root()); e != nil {
+								return e
+							}
+						}
 						e = sel.InsertInto(c19wtr.Node())
 						doc = buff.String()
+						if e == nil && di%2 == 1 && viaXML != doc {
+							e = fmt.Errorf("XMLWtr.XML answered %s, the same writer then wrote %s to its stream", short(viaXML), short(doc))
+						}
 					}
 					return e
 				})
